@@ -52,10 +52,16 @@ func runUnblock(d Desc) mon.Result {
 	ta := time.Now()
 	before := cs.returned()
 	closeReturned := true
-	if d.How == "close" {
+	switch d.How {
+	case "close":
 		closed = true
 		closeReturned = l.closeTransport(true, 5*time.Second)
-	} else {
+	case "close-peer-hung": // the peer stops processing (connection up), then Close(true)
+		l.freeze()
+		time.Sleep(20 * time.Millisecond)
+		closed = true
+		closeReturned = l.closeTransport(true, 5*time.Second)
+	default:
 		l.killPeer()
 	}
 	// the read that was blocked must return, and so must the one issued after it (the first may just
@@ -64,16 +70,21 @@ func runUnblock(d Desc) mon.Result {
 	took := time.Since(ta)
 	if !released || !closeReturned {
 		if mon.LoadedSince(ta) {
-			return mon.Result{Verdict: mon.Inconclusive, Detail: "unblock not observed within 5 s under load"}
+			if stuck, concl := l.stillStuck(cs, before+1, true); !stuck {
+				return mon.Result{Verdict: mon.Inconclusive, Detail: fmt.Sprintf("unblock not observed within 5 s under load (came back later: %v)", concl)}
+			}
 		}
 		what := "the peer went away"
-		if d.How == "close" {
+		if d.How != "peer-gone" {
 			what = fmt.Sprintf("Transport.Close(true) (returned=%v)", closeReturned)
+		}
+		if d.How == "close-peer-hung" {
+			what += " with a peer that had stopped processing the connection"
 		}
 		return mon.Result{Verdict: mon.Violated, Key: key, NonTrivial: true,
 			Detail: fmt.Sprintf("%s rs=%d: a goroutine blocked in Transport.Read did not return within 5 s after %s", d.T, d.ReadSize, what)}
 	}
-	obs := map[string]int64{"unblock_cases": 1, "reads_released_by_" + map[string]string{"close": "close", "peer-gone": "peer_gone"}[d.How]: 1}
+	obs := map[string]int64{"unblock_cases": 1, "reads_released_by_" + map[string]string{"close": "close", "peer-gone": "peer_gone", "close-peer-hung": "close_with_a_hung_peer"}[d.How]: 1}
 	return mon.Result{Verdict: mon.Held, NonTrivial: true, Obs: obs,
 		Tags:   []string{"transport=" + d.T, "unblock=" + d.How, fmt.Sprintf("readsize=%d", d.ReadSize)},
 		Sample: map[string]interface{}{"transport": d.T, "how": d.How, "released_after_ms": took.Milliseconds(), "reader_returned": fmt.Sprint(cs.err)}}
